@@ -361,6 +361,51 @@ pub fn run(input: &Value) -> Case {
                 nontrivial: nsgr >= 1 && !cells.is_empty(),
             }
         }
+        "stream" => {
+            // Face / FaceModify / Char commands through ONE encoder instance
+            let items: Vec<Value> = input["cmds"].as_array().cloned().unwrap_or_default();
+            let mut cmds: Vec<(TerminalCommand, String)> = vec![];
+            for it in &items {
+                if !it["face"].is_null() {
+                    let f = v_face(&it["face"]);
+                    cmds.push((TerminalCommand::Face(f), format!("(CmdFace {})", c_face(&f))));
+                } else if !it["m"].is_null() {
+                    let m = v_modify(&it["m"]);
+                    cmds.push((TerminalCommand::FaceModify(m), format!("(CmdFaceModify {})", c_modify(&m))));
+                } else {
+                    let c = char::from_u32(it["c"].as_u64().unwrap_or(97) as u32).unwrap_or('a');
+                    cmds.push((TerminalCommand::Char(c), format!("(CmdChar {})", c as u32)));
+                }
+            }
+            let ccmds: Vec<String> = cmds.iter().map(|c| c.1.clone()).collect();
+            let run_cmds: Vec<TerminalCommand> = cmds.into_iter().map(|c| c.0).collect();
+            let cuts2 = cuts.clone();
+            let r = catch(move || {
+                let caps = TerminalCaps { depth: ColorDepth::TrueColor, glyphs: false, kitty_keyboard: false };
+                let mut enc = TTYEncoder::new(caps);
+                let mut bytes = Vec::new();
+                for c in run_cmds {
+                    let _ = enc.encode(&mut bytes, c);
+                }
+                let dec = decode(&bytes, &cuts2);
+                (bytes, dec)
+            });
+            let (bytes, dec) = r.unwrap_or((vec![255], vec![]));
+            j["impl"] = json!({"bytes": String::from_utf8_lossy(&bytes), "decoded": format!("{:?}", dec)});
+            tags.push(format!("cmds={}", items.len().min(12)));
+            Case {
+                coq: format!(
+                    "KStream {} {} {} {}",
+                    clist(ccmds),
+                    clist(cuts.iter().map(|c| cnat(*c))),
+                    cbytes(&bytes),
+                    clist(dec.iter().map(c_cmd)),
+                ),
+                json: j,
+                tags,
+                nontrivial: items.len() >= 2,
+            }
+        }
         _ => {
             // "dec": arbitrary stream
             let bytes = vbytes(&input["bytes"]);
@@ -629,7 +674,32 @@ pub fn generate(rng: &mut Rng, n: usize, tier: &str) -> Vec<Value> {
     let fixed = v.len();
     // 6. random part
     while v.len() < fixed + n {
-        match rng.below(10) {
+        match rng.below(13) {
+            10 | 11 => {
+                // a stream through one encoder: faces, modifications (some empty), characters
+                let k = 2 + rng.below(9);
+                let mut cmds = vec![];
+                for _ in 0..k {
+                    cmds.push(match rng.below(6) {
+                        0 => json!({"face": g_face(rng)}),
+                        1 => json!({"m": g_modify(rng, 30)}),
+                        2 => json!({"m": empty_modify()}),
+                        3 => json!({"m": g_modify(rng, 10)}),
+                        _ => json!({"c": g_text(rng)[0]}),
+                    });
+                }
+                v.push(json!({"kind": "stream", "cmds": cmds, "cuts": rand_cuts(rng, 60)}));
+            }
+            12 => {
+                // a random character through the encoder (27 excluded: not in the property's domain)
+                let c = loop {
+                    let c = g_text(rng)[0];
+                    if c != 27 {
+                        break c;
+                    }
+                };
+                v.push(json!({"kind": "char", "c": c, "gs": [], "cuts": rand_cuts(rng, 4)}));
+            }
             0 => {
                 let m = g_modify(rng, 40);
                 let bytes_len = 40;
